@@ -8,7 +8,8 @@ from more_executors._impl import futures as F
 from .common import Stack
 
 ENTRY = ("map", "flat_inner", "retry", "poll", "throttle", "timeout", "cancel_on_shutdown",
-         "nocancel", "proxy", "f_map", "f_flat_map", "f_timeout", "zip", "and", "or", "sequence", "apply")
+         "nocancel", "proxy", "f_map", "f_flat_map", "f_timeout", "zip", "and", "or", "sequence", "apply",
+         "or_nested", "and_nested", "zip_nested")
 HOW = ("value", "exception", "cancel_inner", "retryable")
 WAIT = ("result", "exception", "wait", "as_completed")
 
@@ -57,7 +58,7 @@ def make(mc, ent):
         f = F.f_flat_map(F.f_return("s"), lambda v: inner)
         ins = [inner]
     else:
-        n = 2 if ent in ("zip", "and", "or", "sequence", "apply") else 1
+        n = 2 if ent in ("zip", "and", "or", "sequence", "apply", "or_nested", "and_nested", "zip_nested") else 1
         ins = [ProbeFuture(mc, "in%d" % i) for i in range(n)]
         if ent == "nocancel":
             f = F.f_nocancel(ins[0])
@@ -79,6 +80,15 @@ def make(mc, ent):
             f = F.f_sequence(ins)
         elif ent == "apply":
             f = F.f_apply(ins[0], ins[1])
+        elif ent == "or_nested":
+            f = F.f_or(F.f_or(ins[1], ins[0]), ins[0])       # the operations share an input
+        elif ent == "and_nested":
+            f = F.f_and(F.f_and(ins[1], ins[0]), ins[0])
+        elif ent == "zip_nested":
+            f = F.f_zip(F.f_zip(ins[1], ins[0]), ins[0])
+        if n == 2:
+            # a consumer's callback on the output that touches the sibling inputs
+            f.add_done_callback(lambda _f: [i.cancel() for i in ins])
 
     def finish(how):
         # the last input decides; earlier inputs get plain values first
